@@ -17,11 +17,13 @@ import (
 )
 
 // paramVector builds the override map for vector name pv.
-//   default            registered defaults
-//   hostile            every int 0, every bool flipped
-//   neg                every int -1
-//   huge               every int 1<<31-1
-//   seed:N             seeded choice per parameter
+//
+//	default            registered defaults
+//	hostile            every int 0, every bool flipped
+//	neg                every int -1
+//	huge               every int 1<<31-1
+//	seed:N             seeded choice per parameter
+//
 // String parameters other than ruleguard's stay as they are (there are none today);
 // ruleguard's rule-file parameters are the business of C18.
 func paramVector(pv string, defaults map[string]map[string]interface{}) map[string]map[string]interface{} {
